@@ -6,7 +6,7 @@ const { differential } = require('../lib/diffexec')
 const { compile } = require('../lib/world')
 const { hashStr, Rng, clip } = require('../lib/util')
 
-const O = { quickFormsPerPlacement: 4, quickRandom: 700, thoroughRandom: 20000, thoroughVariants: 2 }
+const O = { quickFormsPerPlacement: 10, quickRandom: 3000, thoroughRandom: 30000, thoroughVariants: 3 }
 
 async function checkJob (job, resp, faults, rng) {
   // returns {status, violation?, stats}
@@ -48,7 +48,7 @@ module.exports = {
     const { responses } = rewriteJobs(js)
     const rep = { evaluations: 0, distinct: [], violations: [], inconclusive: [], samples: [], counters: {}, sets: { placements: [], forms: [] } }
     const rng = new Rng(ctx.seed, 'faults', spec.stream || 0)
-    const faults = ctx.tier === 'thorough' ? 'all' : 6
+    const faults = ctx.tier === 'thorough' ? 'all' : 10
     const bump = (k, n = 1) => { rep.counters[k] = (rep.counters[k] || 0) + n }
     for (let i = 0; i < js.length; i++) {
       const r = await checkJob(js[i], responses[i], faults, rng)
